@@ -1,1 +1,125 @@
-// harnesses for model (cfg(kani) only)
+// Harnesses for src/parser/model.rs (cfg(kani) only): C06/C07 operator and function tables, AST mirror layout sanity.
+#![allow(unused_imports, dead_code, unused_mut)]
+use super::*;
+use crate::verif_common::*;
+use core::mem::forget;
+
+fn md<T>(t: T) -> core::mem::ManuallyDrop<T> {
+    core::mem::ManuallyDrop::new(t)
+}
+fn tag_of<T>(t: &T) -> u8 {
+    unsafe { *(t as *const T as *const u8) }
+}
+
+// The mirror structs of verif_common rely on these discriminant values.
+proof!(ast_layout_sanity, 3, {
+    assert!(tag_of(&*md(Comparison::Eq(PAD_LIT, PAD_LIT))) == OP_EQ && tag_of(&*md(Comparison::Ne(PAD_LIT, PAD_LIT))) == OP_NE);
+    assert!(tag_of(&*md(Comparison::Gt(PAD_LIT, PAD_LIT))) == OP_GT && tag_of(&*md(Comparison::Gte(PAD_LIT, PAD_LIT))) == OP_GTE);
+    assert!(tag_of(&*md(Comparison::Lt(PAD_LIT, PAD_LIT))) == OP_LT && tag_of(&*md(Comparison::Lte(PAD_LIT, PAD_LIT))) == OP_LTE);
+    assert!(tag_of(&*md(Comparable::Literal(Literal::Null))) == 0 && tag_of(&*md(Comparable::SingularQuery(SingularQuery::Current(Vec::new())))) == 2);
+    assert!(tag_of(&*md(SingularQuery::Current(Vec::new()))) == SQ_CURRENT && tag_of(&*md(SingularQuery::Root(Vec::new()))) == SQ_ROOT);
+    assert!(tag_of(&*md(SingularQuerySegment::Index(0))) == 0 && tag_of(&*md(SingularQuerySegment::Name(String::new()))) == 1);
+    assert!(tag_of(&*md(Segment::Selector(Selector::Wildcard))) == SEG_SEL && tag_of(&*md(Segment::Selectors(Vec::new()))) == SEG_SELS);
+    assert!(tag_of(&*md(Selector::Name(String::new()))) == SEL_NAME && tag_of(&*md(Selector::Wildcard)) == SEL_WILD && tag_of(&*md(Selector::Index(0))) == SEL_INDEX);
+    assert!(tag_of(&*md(Selector::Slice(None, None, None))) == SEL_SLICE && tag_of(&*md(Selector::Filter(PADF))) == SEL_FILTER);
+    assert!(tag_of(&*md(Filter::Or(Vec::new()))) == 0 && tag_of(&*md(Filter::And(Vec::new()))) == 1);
+    kani::cover!(true, "end reached");
+});
+
+// Comparison::try_new: exactly the six RFC operators are accepted, each mapped to its own variant.
+proof!(c07_comparison_ops, 5, {
+    let n: usize = kani::any();
+    kani::assume(n >= 1 && n <= 3);
+    let mut buf = [0u8; 4];
+    let (b0, b1, b2): (u8, u8, u8) = (kani::any(), kani::any(), kani::any());
+    kani::assume(b0 < 0x80 && b1 < 0x80 && b2 < 0x80);
+    buf[0] = b0;
+    buf[1] = b1;
+    buf[2] = b2;
+    let op = str_over(&buf, n);
+    let r = Comparison::try_new(op, PAD_LIT, PAD_LIT);
+    let exp: Option<u8> = if n == 2 && b0 == b'=' && b1 == b'=' {
+        Some(OP_EQ)
+    } else if n == 2 && b0 == b'!' && b1 == b'=' {
+        Some(OP_NE)
+    } else if n == 1 && b0 == b'>' {
+        Some(OP_GT)
+    } else if n == 2 && b0 == b'>' && b1 == b'=' {
+        Some(OP_GTE)
+    } else if n == 1 && b0 == b'<' {
+        Some(OP_LT)
+    } else if n == 2 && b0 == b'<' && b1 == b'=' {
+        Some(OP_LTE)
+    } else {
+        None
+    };
+    match &r {
+        Ok(c) => {
+            assert!(exp.is_some(), "an operator outside == != < <= > >= was accepted");
+            assert!(Some(tag_of(c)) == exp, "operator token mapped to the wrong comparison");
+        }
+        Err(_) => assert!(exp.is_none(), "an RFC 9535 comparison operator was rejected"),
+    }
+    kani::cover!(exp == Some(OP_LTE), "<=");
+    kani::cover!(exp == Some(OP_GT), ">");
+    kani::cover!(exp.is_none() && n == 2 && b0 == b'i' && b1 == b'n', "the grammar's extra token `in` is rejected here");
+    forget(r);
+});
+
+// TestFunction::try_new: arity and argument kinds of the five RFC functions.
+const FN_LEN: u8 = 1;
+const FN_VALUE: u8 = 2;
+const FN_COUNT: u8 = 3;
+const FN_SEARCH: u8 = 4;
+const FN_MATCH: u8 = 5;
+const FN_CUSTOM: u8 = 0;
+fn lit_arg(_slot: &mut Test) -> MFnLit {
+    mfn_lit(Literal::Int(1))
+}
+macro_rules! c07_fn {
+    ($name:ident, $fname:expr, $nargs:expr, $arg:expr, $exp:expr) => {
+        proof!($name, 8, {
+            // arguments over typed storage, concrete length (heap-stored enum values
+            // lose their discriminants for CBMC and the drop glue of every variant is explored)
+            let mut t0 = Test::RelQuery(Vec::new());
+            let mut t1 = Test::RelQuery(Vec::new());
+            let mut buf = Pair { a: $arg(&mut t0), b: $arg(&mut t1) };
+            let args = fnarg_vec(&mut buf, $nargs);
+            let r = TestFunction::try_new($fname, args);
+            let exp: Option<u8> = $exp;
+            match &r {
+                Ok(tf) => {
+                    assert!(exp.is_some(), "an ill-formed function call was accepted");
+                    assert!(Some(tag_of(tf)) == exp, "function name mapped to the wrong function");
+                }
+                Err(_) => assert!(exp.is_none(), "a well-formed function call was rejected"),
+            }
+            kani::cover!(true, "end reached");
+            forget(r);
+            forget(buf);
+        });
+    };
+}
+fn test_arg(slot: &mut Test) -> MFnTest {
+    mfn_test(slot)
+}
+fn filter_arg(_slot: &mut Test) -> MFnFilter {
+    mfn_filter(Filter::Or(Vec::new()))
+}
+c07_fn!(c07_fn_length_1, "length", 1, test_arg, Some(FN_LEN));
+c07_fn!(c07_fn_length_0, "length", 0, test_arg, None);
+c07_fn!(c07_fn_length_2, "length", 2, test_arg, None);
+c07_fn!(c07_fn_length_lit, "length", 1, lit_arg, Some(FN_LEN));
+c07_fn!(c07_fn_value_1, "value", 1, test_arg, Some(FN_VALUE));
+c07_fn!(c07_fn_value_2, "value", 2, test_arg, None);
+c07_fn!(c07_fn_count_1, "count", 1, test_arg, Some(FN_COUNT));
+c07_fn!(c07_fn_count_0, "count", 0, test_arg, None);
+c07_fn!(c07_fn_count_lit, "count", 1, lit_arg, None);
+c07_fn!(c07_fn_count_filter, "count", 1, filter_arg, None);
+c07_fn!(c07_fn_match_2, "match", 2, test_arg, Some(FN_MATCH));
+c07_fn!(c07_fn_match_1, "match", 1, test_arg, None);
+c07_fn!(c07_fn_search_2, "search", 2, lit_arg, Some(FN_SEARCH));
+c07_fn!(c07_fn_search_0, "search", 0, lit_arg, None);
+c07_fn!(c07_fn_custom, "in", 2, test_arg, Some(FN_CUSTOM));
+// role B (finding F10): value() needs a NodesType argument, a literal is ill-typed
+c07_fn!(c07_roleb_fn_value_lit, "value", 1, lit_arg, None);
